@@ -214,7 +214,7 @@ AEAD_encrypt(AEADObject *self, PyObject *args)
     if (!PyArg_ParseTuple(args, "y#y#K", &data, &data_len, &associated, &associated_len, &pn))
         return NULL;
 
-    if (data_len > PACKET_LENGTH_MAX) {
+    if (data_len > PACKET_LENGTH_MAX - AEAD_TAG_LENGTH) {
         PyErr_SetString(CryptoError, "Invalid payload length");
         return NULL;
     }
@@ -365,8 +365,18 @@ HeaderProtection_apply(HeaderProtectionObject *self, PyObject *args)
     if (!PyArg_ParseTuple(args, "y#y#", &header, &header_len, &payload, &payload_len))
         return NULL;
 
+    if (header_len < 1 || header_len + payload_len > PACKET_LENGTH_MAX) {
+        PyErr_SetString(CryptoError, "Invalid packet length");
+        return NULL;
+    }
+
     int pn_length = (header[0] & 0x03) + 1;
     int pn_offset = header_len - pn_length;
+
+    if (pn_offset < 1 || payload_len < PACKET_NUMBER_LENGTH_MAX - pn_length + SAMPLE_LENGTH) {
+        PyErr_SetString(CryptoError, "Invalid header or payload length");
+        return NULL;
+    }
 
     res = HeaderProtection_mask(self, payload + PACKET_NUMBER_LENGTH_MAX - pn_length);
     CHECK_RESULT(res != 0);
@@ -391,11 +401,17 @@ static PyObject*
 HeaderProtection_remove(HeaderProtectionObject *self, PyObject *args)
 {
     const unsigned char *packet;
-    Py_ssize_t packet_len;
-    int pn_offset, res;
+    Py_ssize_t packet_len, pn_offset;
+    int res;
 
-    if (!PyArg_ParseTuple(args, "y#I", &packet, &packet_len, &pn_offset))
+    if (!PyArg_ParseTuple(args, "y#n", &packet, &packet_len, &pn_offset))
         return NULL;
+
+    if (pn_offset < 0 || pn_offset > PACKET_LENGTH_MAX - PACKET_NUMBER_LENGTH_MAX ||
+        packet_len < pn_offset + PACKET_NUMBER_LENGTH_MAX + SAMPLE_LENGTH) {
+        PyErr_SetString(CryptoError, "Invalid packet length or offset");
+        return NULL;
+    }
 
     res = HeaderProtection_mask(self, packet + pn_offset + PACKET_NUMBER_LENGTH_MAX);
     CHECK_RESULT(res != 0);
